@@ -19,6 +19,7 @@ import Mahotas.Proofs.C19Tas
 import Mahotas.Proofs.C19TasNorm
 import Mahotas.Proofs.C19HaralickQ
 import Mahotas.Proofs.C19LbpSample
+import Mahotas.Proofs.C19HaralickMean
 import Mathlib.Data.ZMod.Basic
 namespace Mahotas.C19
 open Mahotas Mahotas.Generated
@@ -685,3 +686,38 @@ example :
     C19Lbp.rawCodes (fun x => x.floor) im (1 / 2) dydx false = [12, 12, 8, 12, 12, 8, 4, 4, 0] ∧
     (C19Lbp.rawCodes (fun x => x.floor) im 1 dydx false).map (lbpMap 4) = [3, 3, 1, 3, 3, 1, 1, 1, 0] := by
   decide +kernel
+
+/-- **haralick `return_mean` / `return_mean_ptp`.** Over any ordered field, for every non-empty feature matrix (one row
+per direction, all rows of width `w`) and every column `j < w`: the model of `features.mean(axis=0)` (rows added in
+order, one division by the number of rows; the driver runs it at `Float` on the real feature matrix and must reproduce
+the real output bit for bit) is the arithmetic mean of the column; the model of `np.ptp(features, axis=0)` is
+`hi − lo` for two entries `hi`, `lo` of the column that bound every entry; hence `lo ≤ mean ≤ hi`, `ptp ≥ 0`, and
+`ptp = 0` exactly when the feature takes the same value in every direction (then that value is the mean). -/
+theorem C19_haralick_mean_ptp {α : Type} [Field α] [LinearOrder α] [IsStrictOrderedRing α]
+    (w : Nat) (r0 : List α) (rest : List (List α)) (h0 : r0.length = w) (hr : ∀ r ∈ rest, r.length = w)
+    (j : Nat) (hj : j < w) :
+    let rows := r0 :: rest
+    let col := rows.map (·.getD j 0)
+    let mean := (colMeanG (Nat.cast : Nat → α) rows).getD j 0
+    let ptp := (colPtpG rows).getD j 0
+    mean = col.sum / (rows.length : α) ∧
+    ∃ hi ∈ col, ∃ lo ∈ col, (∀ x ∈ col, lo ≤ x ∧ x ≤ hi) ∧ ptp = hi - lo ∧ lo ≤ mean ∧ mean ≤ hi ∧ 0 ≤ ptp ∧
+      (ptp = 0 → ∀ x ∈ col, x = mean) :=
+  col_mean_ptp w r0 rest h0 hr j hj
+
+/-- **haralick marginals.** Over any ordered field, for every `m × m` count matrix with a non-zero total: the marginals
+`p_x = p.sum(0)` and `p_y = p.sum(1)` of `haralick13` (`colSumG`, `rowSumG` of the normalised matrix) are probability
+vectors — entries in `[0, 1]`, each summing to 1. -/
+theorem C19_haralick_marginals {α : Type} [Field α] [LinearOrder α] [IsStrictOrderedRing α]
+    (m : Nat) (c : List Nat) (hlen : c.length = m * m) (hT : c.sum ≠ 0) :
+    let P := matAt (0 : α) m (normMat (Nat.cast : Nat → α) c)
+    ∑ k ∈ Finset.range m, (rowSumG (0 : α) m P).getD k 0 = 1 ∧ ∑ k ∈ Finset.range m, (colSumG (0 : α) m P).getD k 0 = 1 ∧
+    (∀ k < m, 0 ≤ (rowSumG (0 : α) m P).getD k 0 ∧ (rowSumG (0 : α) m P).getD k 0 ≤ 1) ∧
+    (∀ k < m, 0 ≤ (colSumG (0 : α) m P).getD k 0 ∧ (colSumG (0 : α) m P).getD k 0 ≤ 1) :=
+  marginals_sum m c hlen hT
+
+example : colMeanG (Nat.cast : Nat → Rat) [[1, 5], [3, 5], [8, 5]] = [4, 5] ∧
+    colPtpG ([[1, 5], [3, 5], [8, 5]] : List (List Rat)) = [7, 0] := by decide +kernel
+example :
+    let P := matAt (0 : Rat) 2 (normMat (Nat.cast : Nat → Rat) [1, 2, 2, 3])
+    rowSumG (0 : Rat) 2 P = [3 / 8, 5 / 8] ∧ colSumG (0 : Rat) 2 P = [3 / 8, 5 / 8] := by decide +kernel
